@@ -93,7 +93,10 @@ def check_grad(params):
         params["_skipped"] = True
         return out
     try:
-        g = d.grad(var, mixed=mixed) if cls == "circuit" else d.grad(var)
+        if cls == "circuit" and params.get("default"):
+            g = d.grad(var)       # the default call: parameter-shift gradient of the classical-quantum map
+        else:
+            g = d.grad(var, mixed=mixed) if cls == "circuit" else d.grad(var)
     except NotImplementedError:
         params["_refused"] = True
         return out
@@ -329,6 +332,9 @@ def run(ctx):
             for var in ("x", "y"):
                 for mixed in ((False, True) if cls == "circuit" else (False,)):
                     items.append(("grad", dict(cls=cls, layers=s, var=var, mixed=mixed,
+                                               n_points=3 if ctx.quick else 5)))
+                if cls == "circuit" and len(s) == 1:     # the call without the keyword, on every single box
+                    items.append(("grad", dict(cls=cls, layers=s, var=var, mixed=True, default=True,
                                                n_points=3 if ctx.quick else 5)))
         for s in seqs[::4]:
             for vs in (["x", "x"], ["x", "y"]):
